@@ -288,6 +288,27 @@ def unparse_subst(node: ast.AST, subst: Dict[str, ast.AST]) -> str:
     return ast.unparse(_Subst(subst).visit(copy.deepcopy(node)))
 
 
+def _else_cond(loop: ast.AST, subst) -> list:
+    """the else-branch of a loop runs only when the loop was not left by `break`: a pseudo-condition records that"""
+    def own_break(stmts) -> bool:
+        for st in stmts:
+            if isinstance(st, ast.Break):
+                return True
+            if isinstance(st, (ast.For, ast.AsyncFor, ast.While, ast.FunctionDef, ast.AsyncFunctionDef, ast.ClassDef)):
+                if isinstance(st, (ast.For, ast.AsyncFor, ast.While)) and own_break(st.orelse):
+                    return True
+                continue
+            for f in ("body", "orelse", "finalbody", "handlers"):
+                sub = getattr(st, f, None)
+                if isinstance(sub, list) and own_break([x for x in sub if isinstance(x, ast.stmt)] +
+                                                       [y for x in sub if isinstance(x, ast.ExceptHandler) for y in x.body]):
+                    return True
+        return False
+    if not loop.orelse or not own_break(loop.body):
+        return []
+    return [(ast.Name(id="loop_not_left_by_break", ctx=ast.Load()), True, subst)]
+
+
 def _swallowing_handlers(t: ast.Try) -> List[str]:
     out = []
     for h in t.handlers:
@@ -362,11 +383,11 @@ def trace(fn: ast.AST, resolve=None, max_depth: int = 2) -> List[Event]:
                     expr_events(st.iter, conds, protected, loops=loops)
                     events.append(Event("loop", st, conds, protected, subst, f, depth, target=ast.unparse(st.target), value=st.iter, loops=loops))
                     block(st.body, conds, protected, loops + (st,))
-                    block(st.orelse, conds, protected, loops)
+                    block(st.orelse, conds + _else_cond(st, subst), protected, loops)
                 elif isinstance(st, ast.While):
                     expr_events(st.test, conds, protected, loops=loops)
                     block(st.body, conds + [(st.test, True, subst)], protected, loops + (st,))
-                    block(st.orelse, conds, protected, loops)
+                    block(st.orelse, conds + _else_cond(st, subst), protected, loops)
                 elif isinstance(st, (ast.With, ast.AsyncWith)):
                     prot = list(protected)
                     for it in st.items:
@@ -668,3 +689,46 @@ def mentions_whole(expr: ast.AST, text: str, fn: Optional[ast.AST] = None) -> bo
                     continue
                 return True
     return False
+
+
+# ----------------------------------------------------------------------------- propositional evaluation
+def truth_table(expr: ast.AST, atom, n_atoms_max: int = 6):
+    """Evaluates a boolean expression built from and / or / not / parentheses over atoms.  `atom(node)` returns a
+    (name, polarity) pair for a node it recognises as an atomic proposition (e.g. ('blank', True)), or None to let the
+    walk descend.  Returns (names, {assignment tuple: bool}) or None when a sub-expression is neither a connective nor a
+    recognised atom."""
+    names: List[str] = []
+
+    def collect(e) -> bool:
+        a = atom(e)
+        if a is not None:
+            if a[0] not in names:
+                names.append(a[0])
+            return True
+        if isinstance(e, ast.BoolOp):
+            return all(collect(v) for v in e.values)
+        if isinstance(e, ast.UnaryOp) and isinstance(e.op, ast.Not):
+            return collect(e.operand)
+        if isinstance(e, ast.Constant) and isinstance(e.value, bool):
+            return True
+        return False
+
+    if not collect(expr) or len(names) > n_atoms_max:
+        return None
+
+    def ev(e, env) -> bool:
+        a = atom(e)
+        if a is not None:
+            return env[a[0]] == a[1]
+        if isinstance(e, ast.BoolOp):
+            vals = [ev(v, env) for v in e.values]
+            return all(vals) if isinstance(e.op, ast.And) else any(vals)
+        if isinstance(e, ast.UnaryOp):
+            return not ev(e.operand, env)
+        return bool(e.value)
+
+    import itertools
+    table = {}
+    for bits in itertools.product((False, True), repeat=len(names)):
+        table[bits] = ev(expr, dict(zip(names, bits)))
+    return names, table
